@@ -82,6 +82,18 @@ def handleC16 (cmd : String) (args : List Sexp) : Option Sexp :=
       pure (match setitem r ix v with
         | .ok r' => tagged "ok" [ntToSexp r', flatten r']
         | .error e => tagged "err" [ierrToSexp e])
+  -- (c16.storageset entry ix k value), k = number of dims the written index addresses explicitly;: `td[ix] = value` on a shared / memory-mapped holder; the index arrives resolved
+  | "c16.storageset", [r, .list ix, k, v] => do
+      let k ← asNat? k
+      let r ← nt? r
+      let ix ← ix.mapM ix?
+      let v ← nt? v
+      pure (match resolve (shape r) ix with
+        | .error e => tagged "err" [ierrToSexp e]
+        | .ok rix =>
+          match storageSet r rix k v with
+          | .ok r' => tagged "ok" [ntToSexp r', flatten r']
+          | .error e => tagged "err" [ierrToSexp e])
   | "c16.unbind", [r, d] => do
       let r ← nt? r
       pure (.list ((unbind r (← asNat? d)).map ntToSexp))
